@@ -90,6 +90,10 @@ FAULT_TYPES = {
     "asyncio.TimeoutError": asyncio.TimeoutError,
     "ValueError": ValueError,
     "KeyError": KeyError,
+    "TypeError": TypeError,
+    "AttributeError": AttributeError,
+    "OSError": OSError,
+    "AssertionError": AssertionError,
     "KeyboardInterrupt": KeyboardInterrupt,
     "SystemExit": SystemExit,
     "CancelledError": asyncio.CancelledError,
